@@ -326,6 +326,10 @@ def run(chk, repo):
             ok9 = inner in (w9 + '+1', '(' + w9 + ')+1', '1+' + w9) and kw9.get('_type') == 'SECT'
     chk.ob('C09.i', "SECT id = 'SECT-' + (gene coordinate of the codon start + 1)", cs.where, ok9,
            f"the SECT identifier is not derived from the gene coordinate of the first base of the codon (1-based): {got_id}", key=cs.qual + '::id', fn=cs.qual)
+    from rules.shared import fresh_buffer_per_combination, w2f_tail_guard
+    chk.clauses.append('C09.m (shared with C08.l) every W>F combination is applied to the original peptide; C09.n (shared with C05.n) the tail behind a reassigned W is kept')
+    fresh_buffer_per_combination(chk, repo, 'C09.m')
+    w2f_tail_guard(chk, repo, 'C09.n')
     from rules.shared import w2f_scan_complete
     chk.clauses.append('C09.j (shared R-COVER) every tryptophan of a peptide, the last residue included, gets its W>F candidate')
     w2f_scan_complete(chk, repo, 'C09.j')
